@@ -26,9 +26,11 @@ type History struct {
 	GenTime   time.Time
 	PowerSelf int64
 	// four-validator mode: the node is validator 0 of 4, the others are played by the harness
-	Four     bool
-	Scripts  []RoundScript // rounds played before (and up to) the crash
-	Scripts2 []RoundScript // rounds played after the recovery (same height/round as where the node comes back)
+	// at the first restart the application reports an older committed height (restored from its own older state)
+	AppRollback int64
+	Four        bool
+	Scripts     []RoundScript // rounds played before (and up to) the crash
+	Scripts2    []RoundScript // rounds played after the recovery (same height/round as where the node comes back)
 }
 
 func GenHistory(t *rapid.T) History {
@@ -48,6 +50,9 @@ func GenHistory(t *rapid.T) History {
 	h.ParamAt = int64(rapid.IntRange(0, int(h.Heights)).Draw(t, "paramAt"))
 	h.RetainAt = int64(rapid.IntRange(0, int(h.Heights)+1).Draw(t, "retainAt"))
 	h.GenTime = time.Now().Add(-time.Hour).UTC()
+	if h.RetainAt <= 1 && rapid.IntRange(0, 3).Draw(t, "rollback") == 0 {
+		h.AppRollback = int64(rapid.IntRange(1, 4).Draw(t, "rollbackBy"))
+	}
 	return h
 }
 
@@ -354,6 +359,13 @@ func RunCrash(h History, k int, cutFrac float64, recoveryCrashes []int) (*Result
 		if inc == 0 {
 			// what can a reader still see of the unfinished height?
 			walRecs, walEnd, _ = countWALAfterLastEndHeight(p.walFile())
+			if h.AppRollback > 0 {
+				to := p.App.Height - h.AppRollback
+				if to < 0 {
+					to = 0
+				}
+				p.App.Rollback(to)
+			}
 		}
 	}
 	res.finish(p, cur)
@@ -467,6 +479,9 @@ func CheckAppJournal(app *lib.ScriptApp, bs BlockLoader) string {
 		switch c.Method {
 		case "Info":
 			continue
+		case "Rollback":
+			// the application itself went back to an older state: from here it must be fed the blocks above it again
+			committed, cur, stage = c.Height, 0, ""
 		case "InitChain":
 			if committed != 0 || c.Height != 0 {
 				return fmt.Sprintf("InitChain (journal #%d) although the application had committed height %d", c.Seq, committed)
